@@ -7,6 +7,7 @@ are inlined into their callers before any analysis, so that every rule sees
 the same shape it would see without the extraction (and a new helper that
 contains a defect is analysed in the context of its callers)."""
 import copy
+import re
 
 MAX_BLOCKS = 400
 MAX_DEPTH = 4
@@ -68,6 +69,7 @@ def inline_call(fd, bb, gd):
                 k += 1
             v["name"] = "%s__%d" % (v["name"], k)
         taken.add(v["name"])
+        v["inlined"] = True
         fd["debug"].append(v)
     dest = t["dest"]
     target = t["target"]
@@ -262,6 +264,207 @@ def _thread_error_returns(fd, nb, off, dest, target):
             b["term"]["target"] = err_bb
 
 
+def touched_by_helpers(inlined):
+    return {p for (p, _) in inlined}
+
+
+def _closure_of(fd, op, hops=0):
+    """(closure path, upvar operands) when operand op is - through plain moves and references - a closure value built
+    in this very function; else None."""
+    if hops > 6 or op["k"] not in ("move", "copy"):
+        return None
+    pl = op["place"]
+    if any(e["p"] != "deref" for e in pl["proj"]):
+        return None
+    l = pl["local"]
+    defs = [st for b in fd["blocks"] if not b["cleanup"] for st in b["stmts"] if st["s"] == "assign" and st["place"]["local"] == l and not st["place"]["proj"]]
+    if len(defs) != 1:
+        return None
+    rv = defs[0]["rv"]
+    if rv["r"] == "aggregate" and rv.get("agg") == "closure":
+        return (rv["closure"], rv["ops"])
+    if rv["r"] == "use":
+        return _closure_of(fd, rv["op"], hops + 1)
+    if rv["r"] == "ref" and all(e["p"] == "deref" for e in rv["place"]["proj"]):
+        return _closure_of(fd, {"k": "copy", "place": {"local": rv["place"]["local"], "proj": []}}, hops + 1)
+    return None
+
+
+def inline_closure_calls(fd, by_path, self_path):
+    """Inline `FnOnce::call_once / FnMut::call_mut / Fn::call` whose callee is a closure value built in this function
+    (the situation an inlined closure-taking helper leaves behind).  The closure's environment parameter is replaced
+    by the captured operands themselves, its other parameters by the fields of the argument tuple."""
+    did = False
+    bb = 0
+    while bb < len(fd["blocks"]) and len(fd["blocks"]) < 4 * MAX_BLOCKS:
+        blk = fd["blocks"][bb]
+        t = blk["term"]
+        bb += 1
+        if blk["cleanup"] or t["t"] != "call" or t.get("callee") not in ("std::ops::FnOnce::call_once", "std::ops::FnMut::call_mut", "std::ops::Fn::call") or len(t["args"]) != 2:
+            continue
+        got = _closure_of(fd, t["args"][0])
+        if got is None:
+            continue
+        cpath, upvars = got
+        gd = by_path.get(cpath)
+        if gd is None or cpath == self_path or len(gd["blocks"]) > MAX_BLOCKS or gd["kind"] != "closure":
+            continue
+        nparams = gd["arg_count"] - 1
+        a1 = t["args"][1]
+        spread = []
+        if nparams:
+            if a1["k"] not in ("move", "copy"):
+                continue
+            for k in range(nparams):
+                pl = copy.deepcopy(a1["place"])
+                pl["proj"] = list(pl["proj"]) + [{"p": "field", "i": k, "name": str(k), "owner": "tuple", "ty": gd["locals"][2 + k].get("s", "?")}]
+                spread.append({"k": "move", "place": pl})
+        off = len(fd["locals"])
+        nb = len(fd["blocks"])
+        t["args"] = [t["args"][0]] + spread
+        t["resolved"] = cpath
+        inline_call(fd, bb - 1, gd)
+        # the environment: `(*_1).i` / `_1.i` is the i-th captured operand
+        env = off + 1
+
+        def fix(x):
+            if isinstance(x, dict):
+                if x.get("local") == env and isinstance(x.get("proj"), list):
+                    pj = x["proj"]
+                    j = 0
+                    while j < len(pj) and pj[j]["p"] == "deref":
+                        j += 1
+                    if j < len(pj) and pj[j]["p"] == "field" and isinstance(pj[j].get("i"), int) and pj[j]["i"] < len(upvars):
+                        op = upvars[pj[j]["i"]]
+                        if op["k"] in ("move", "copy"):
+                            x["local"] = op["place"]["local"]
+                            x["proj"] = copy.deepcopy(op["place"]["proj"]) + pj[j + 1:]
+                for k_, v in x.items():
+                    fix(v)
+            elif isinstance(x, list):
+                for v in x:
+                    fix(v)
+        fix(fd["blocks"][nb:])
+        gd["inlined_as_closure"] = True
+        did = True
+    return did
+
+
+# ---- Option / Result combinators with a closure -----------------------------------------------------------
+# `x.map(|v| ..)`, `r.and_then(|v| ..)`, `o.ok_or_else(|| ..)` ... are a two-armed match that calls the closure in one
+# arm.  Written that way the closure call can be inlined like any other and the value's way through the match is
+# visible to the rules (a `?` respelled as `.and_then(..)`, an `if let Some(x) = v.pop()` as `v.pop().map(|x| ..)`).
+
+_COMB = {
+    # (type, method): (number of args, [action for variant 0, action for variant 1]); variants: Option None/Some, Result Ok/Err
+    # actions: ("call", arg index of the function, passes payload?, wrap variant or None) | ("keep",) | ("payload", wrap or None)
+    #          | ("arg", arg index) | ("false",)
+    ("Option", "map"): (2, [("keep",), ("call", 1, True, "Some")]),
+    ("Option", "and_then"): (2, [("keep",), ("call", 1, True, None)]),
+    ("Option", "map_or"): (3, [("arg", 1), ("call", 2, True, None)]),
+    ("Option", "map_or_else"): (3, [("call", 1, False, None), ("call", 2, True, None)]),
+    ("Option", "ok_or_else"): (2, [("call", 1, False, "Err"), ("payload", "Ok")]),
+    ("Option", "unwrap_or_else"): (2, [("call", 1, False, None), ("payload", None)]),
+    ("Option", "or_else"): (2, [("call", 1, False, None), ("keep",)]),
+    ("Option", "is_some_and"): (2, [("false",), ("call", 1, True, None)]),
+    ("Result", "map"): (2, [("call", 1, True, "Ok"), ("keep",)]),
+    ("Result", "map_err"): (2, [("keep",), ("call", 1, True, "Err")]),
+    ("Result", "and_then"): (2, [("call", 1, True, None), ("keep",)]),
+    ("Result", "map_or"): (3, [("call", 2, True, None), ("arg", 1)]),
+    ("Result", "map_or_else"): (3, [("call", 2, True, None), ("call", 1, True, None)]),
+    ("Result", "unwrap_or_else"): (2, [("payload", None), ("call", 1, True, None)]),
+    ("Result", "or_else"): (2, [("keep",), ("call", 1, True, None)]),
+    ("Result", "is_ok_and"): (2, [("call", 1, True, None), ("false",)]),
+}
+_VARIANTS = {"Option": ("None", "Some"), "Result": ("Ok", "Err")}
+_ADT = {"Option": "std::option::Option", "Result": "std::result::Result"}
+
+
+def lower_combinators(fd):
+    """Rewrite calls of the Option/Result combinators above whose function argument is a closure built in this
+    function (or a plain function item) into discriminant test + arms.  Returns True when something was rewritten."""
+    did = False
+    for bb in range(len(fd["blocks"])):
+        blk = fd["blocks"][bb]
+        t = blk["term"]
+        if blk["cleanup"] or t["t"] != "call" or t.get("target") is None or t["dest"]["proj"]:
+            continue
+        m = re.match(r"^std::(option::Option|result::Result)::<[^>]*(?:<[^>]*>[^>]*)*>::(\w+)$", t.get("callee") or "")
+        if not m:
+            continue
+        ty = "Option" if "Option" in m.group(1) else "Result"
+        spec = _COMB.get((ty, m.group(2)))
+        if not spec or len(t["args"]) != spec[0]:
+            continue
+        x = t["args"][0]
+        if x["k"] not in ("move", "copy") or x["place"]["proj"]:
+            continue
+        fargs = {a[1] for a in spec[1] if a[0] == "call"}
+        if not all(_closure_of(fd, t["args"][i]) is not None for i in fargs):
+            continue
+        span, dest, target, unwind = t["span"], t["dest"], t["target"], t.get("unwind")
+
+        def new_local(tys):
+            fd["locals"].append({"s": tys})
+            return len(fd["locals"]) - 1
+
+        def new_block(stmts, term):
+            fd["blocks"].append({"stmts": stmts, "term": term, "cleanup": False, "clone": False})
+            return len(fd["blocks"]) - 1
+        xl = x["place"]["local"]
+        arms = []
+        for vi, act in enumerate(spec[1]):
+            vname = _VARIANTS[ty][vi]
+            stmts = []
+            pay = None
+            if act[0] == "keep":
+                # spelled out as the same variant built again (`Err(e) => Err(e)`), which is what rules about error
+                # propagation recognise
+                act = ("payload", vname) if not (ty == "Option" and vi == 0) else ("none",)
+            needs_pay = act[0] == "payload" or (act[0] == "call" and act[2])
+            has_pay = not (ty == "Option" and vi == 0)
+            if needs_pay and has_pay:
+                pay = new_local("?")
+                stmts.append({"s": "assign", "place": {"local": pay, "proj": [], "ty": "?"}, "span": span,
+                              "rv": {"r": "use", "op": {"k": "move", "place": {"local": xl, "proj": [{"p": "downcast", "variant": vname, "vidx": vi}, {"p": "field", "i": 0, "name": "0", "owner": _ADT[ty] + "::" + vname, "ty": "?"}], "ty": "?"}}}})
+
+            def wrap(op, w):
+                if w is None:
+                    return {"r": "use", "op": op}
+                adt = "Result" if w in ("Ok", "Err") else "Option"
+                return {"r": "aggregate", "agg": "adt", "adt": _ADT[adt], "variant": w, "fields": ["0"], "ops": [op]}
+            if act[0] == "none":
+                stmts.append({"s": "assign", "place": copy.deepcopy(dest), "span": span, "rv": {"r": "aggregate", "agg": "adt", "adt": _ADT["Option"], "variant": "None", "fields": [], "ops": []}})
+                arms.append(new_block(stmts, {"t": "goto", "target": target, "span": span}))
+            elif act[0] == "payload":
+                stmts.append({"s": "assign", "place": copy.deepcopy(dest), "span": span, "rv": wrap({"k": "move", "place": {"local": pay, "proj": [], "ty": "?"}}, act[1])})
+                arms.append(new_block(stmts, {"t": "goto", "target": target, "span": span}))
+            elif act[0] == "arg":
+                stmts.append({"s": "assign", "place": copy.deepcopy(dest), "span": span, "rv": {"r": "use", "op": copy.deepcopy(t["args"][act[1]])}})
+                arms.append(new_block(stmts, {"t": "goto", "target": target, "span": span}))
+            elif act[0] == "false":
+                stmts.append({"s": "assign", "place": copy.deepcopy(dest), "span": span, "rv": {"r": "use", "op": {"k": "const", "val": "false", "repr": "const false", "ty": "bool"}}})
+                arms.append(new_block(stmts, {"t": "goto", "target": target, "span": span}))
+            else:
+                tup = new_local("?")
+                stmts.append({"s": "assign", "place": {"local": tup, "proj": [], "ty": "?"}, "span": span,
+                              "rv": {"r": "aggregate", "agg": "tuple", "ops": ([{"k": "move", "place": {"local": pay, "proj": [], "ty": "?"}}] if pay is not None else [])}})
+                r = new_local("?")
+                after = new_block([{"s": "assign", "place": copy.deepcopy(dest), "span": span, "rv": wrap({"k": "move", "place": {"local": r, "proj": [], "ty": "?"}}, act[3])}],
+                                  {"t": "goto", "target": target, "span": span})
+                call = {"t": "call", "callee_kind": "direct", "callee": "std::ops::FnOnce::call_once", "callee_name": "call_once", "callee_krate": "core", "resolved": None,
+                        "args": [copy.deepcopy(t["args"][act[1]]), {"k": "move", "place": {"local": tup, "proj": [], "ty": "?"}}],
+                        "dest": {"local": r, "proj": [], "ty": "?"}, "target": after, "unwind": unwind, "fn_span": t.get("fn_span", span), "span": span}
+                arms.append(new_block(stmts, call))
+        d = new_local("isize")
+        blk["stmts"].append({"s": "assign", "place": {"local": d, "proj": [], "ty": "isize"}, "span": span,
+                             "rv": {"r": "discriminant", "place": {"local": xl, "proj": [], "ty": x["place"].get("ty", "?")}}})
+        dead = _dead_block(fd, span)
+        blk["term"] = {"t": "switch", "discr": {"k": "move", "place": {"local": d, "proj": [], "ty": "isize"}}, "arms": [[0, arms[0]], [1, arms[1]]], "otherwise": dead, "span": span}
+        did = True
+    return did
+
+
 def inline_new_helpers(bodies, known):
     """bodies: path -> facts dict.  Inline every call to a plain function that is not in `known`."""
     by_path = bodies
@@ -300,10 +503,28 @@ def inline_new_helpers(bodies, known):
                         inlined.append((p, r))
                         changed = True
                 bb += 1
+        # a generic helper that takes a closure (`fn with_read<R>(&self, f: impl FnOnce(&T) -> R) -> R`), once inlined,
+        # leaves `FnOnce::call_once(f, (x,))` in the caller with `f` the caller's own closure: that call is inlined too
+        for p, fd in list(by_path.items()):
+            if lower_combinators(fd):
+                inlined.append((p, p + "::{combinator}"))
+                changed = True
+        for p, fd in list(by_path.items()):
+            if p in touched_by_helpers(inlined) and inline_closure_calls(fd, by_path, p):
+                inlined.append((p, p + "::{closure}"))
+                changed = True
         if not changed:
             break
     # threading leaves blocks behind that nothing leads to any more (the joined originals, undecided clones): blank
     # them, so that no rule reads a return or a store off a block that cannot execute
+    # values that travel through several inlined levels (closure -> helper -> helper -> `?`) are copies from one return
+    # place to the next: thread them once more now that the whole way is in one body
+    for p in {p for (p, _) in inlined}:
+        fd = by_path.get(p)
+        if fd is not None:
+            _prune_unreachable(fd)
+            if thread_local_variants(fd):
+                threaded.add(p)
     for p in {p for (p, _) in inlined} | threaded:
         fd = by_path.get(p)
         if fd is not None:
@@ -320,6 +541,24 @@ def inline_new_helpers(bodies, known):
         if r in by_path and r not in still_called:
             del by_path[r]
             removed.append(r)
+    # a closure whose calls were all inlined is gone from the program too: no call anywhere still receives it
+    if any(r.endswith("::{closure}") for (_, r) in inlined):
+        built, passed = set(), set()
+        for p, fd in by_path.items():
+            for b in fd["blocks"]:
+                for st in b["stmts"]:
+                    if st["s"] == "assign" and st["rv"].get("r") == "aggregate" and st["rv"].get("agg") == "closure":
+                        built.add(st["rv"]["closure"])
+                t = b["term"]
+                if t["t"] in ("call", "tailcall"):
+                    for a in t["args"]:
+                        got = _closure_of(fd, a) if a["k"] in ("move", "copy") else None
+                        if got:
+                            passed.add(got[0])
+        for c in list(by_path):
+            if by_path[c]["kind"] == "closure" and c in built and c not in passed and by_path[c].get("inlined_as_closure"):
+                del by_path[c]
+                removed.append(c)
     return inlined, removed
 
 
@@ -331,6 +570,13 @@ def inline_new_helpers(bodies, known):
 # already taken.
 
 _DISCR = {"None": 0, "Some": 1, "Ok": 0, "Err": 1, "Continue": 0, "Break": 1}
+ADTS = {}      # enum path -> [variant names], set by facts.Facts before inlining (fieldless enums of the crate)
+
+
+def _discr_index(kv):
+    if len(kv) > 3 and kv[3] is not None:
+        return kv[3]
+    return _DISCR.get(kv[0])
 
 
 def _agg_variant(blk, upto, local):
@@ -339,6 +585,11 @@ def _agg_variant(blk, upto, local):
         st = blk["stmts"][i]
         if st["s"] == "assign" and st["place"]["local"] == local and not st["place"]["proj"]:
             rv = st["rv"]
+            if rv["r"] == "use" and rv["op"]["k"] == "const" and rv["op"].get("variant") and rv["op"].get("enum") in ADTS and rv["op"]["variant"] in ADTS[rv["op"]["enum"]]:
+                # a constant of a fieldless enum (`Link::Child`): the variant, hence every later `match` on it, is known
+                return (rv["op"]["variant"], None, None, ADTS[rv["op"]["enum"]].index(rv["op"]["variant"]))
+            if rv["r"] == "aggregate" and rv.get("agg") == "adt" and rv.get("adt") in ADTS and rv.get("variant") in ADTS[rv["adt"]] and not rv.get("ops"):
+                return (rv["variant"], None, None, ADTS[rv["adt"]].index(rv["variant"]))
             if rv["r"] == "aggregate" and rv.get("agg") == "adt" and rv.get("variant") in _DISCR:
                 pay = None
                 if rv["ops"] and rv["ops"][0]["k"] in ("move", "copy") and not rv["ops"][0]["place"]["proj"]:
@@ -429,7 +680,7 @@ def _clone_chain(fd, start, known, avoid=None, assigned=None, arm=False):
     assigned = set(assigned or ())
     subst = 0
     trail = []
-    for _ in range(10):
+    for _ in range(24):
         if avoid and cur in avoid:
             break
         blk = fd["blocks"][cur]
@@ -452,7 +703,9 @@ def _clone_chain(fd, start, known, avoid=None, assigned=None, arm=False):
             consts.pop(x, None)
             assigned.add(x)
             if rv["r"] == "discriminant" and not rv["place"]["proj"] and rv["place"]["local"] in known:
-                consts[x] = _DISCR[known[rv["place"]["local"]][0]]
+                di_ = _discr_index(known[rv["place"]["local"]])
+                if di_ is not None:
+                    consts[x] = di_
             elif rv["r"] == "aggregate" and rv.get("agg") == "adt" and rv.get("variant") in _DISCR:
                 # a value re-wrapped on the way (`Ok(v) => Ok(v)`): the new local's variant is known as well
                 op = rv["ops"][0] if len(rv.get("ops", [])) == 1 and (rv["ops"][0]["k"] == "const" or not rv["ops"][0]["place"]["proj"]) else None
@@ -478,7 +731,8 @@ def _clone_chain(fd, start, known, avoid=None, assigned=None, arm=False):
                             rv["op"] = {"k": "copy", "place": copy.deepcopy(op["place"])}
                             subst += 1
         t = nbk["term"]
-        if t["t"] == "goto":
+        if t["t"] == "goto" or (t["t"] == "drop" and t.get("target") is not None):
+            # (a drop on the way - the guard of a helper that was inlined - is executed once on every path, copy or not)
             prev = idx
             cur = t["target"]
             continue
@@ -499,7 +753,7 @@ def _clone_chain(fd, start, known, avoid=None, assigned=None, arm=False):
             decided += 1
             # stop after the decision unless the arm is again a pure decision block
             nxt = fd["blocks"][tgt]
-            if nxt["term"]["t"] in ("switch", "goto") or (nxt["term"]["t"] == "call" and _is_branch(nxt["term"])):
+            if nxt["term"]["t"] in ("switch", "goto", "drop") or (nxt["term"]["t"] == "call" and _is_branch(nxt["term"])):
                 # continue threading through the chosen arm
                 prev_switch = idx
                 cur = tgt
@@ -521,7 +775,7 @@ def _clone_chain(fd, start, known, avoid=None, assigned=None, arm=False):
     while trail:
         idx, orig, pv, before = trail[-1]
         tk = fd["blocks"][idx]["term"]["t"]
-        if subst > before and tk in ("goto", "return"):
+        if subst > before and tk in ("goto", "return", "drop"):
             break
         subst = before
         trail.pop()
@@ -609,6 +863,10 @@ def thread_local_variants(fd):
                 rv = st["rv"]
                 if rv["r"] == "aggregate" and rv.get("agg") == "adt" and rv.get("variant") in _DISCR and st["place"]["local"] != 0:
                     cands[st["place"]["local"]] = i
+                elif rv["r"] == "use" and rv["op"]["k"] == "const" and rv["op"].get("variant") and rv["op"].get("enum") in ADTS and st["place"]["local"] != 0:
+                    cands[st["place"]["local"]] = i
+                elif rv["r"] == "aggregate" and rv.get("agg") == "adt" and rv.get("adt") in ADTS and not rv.get("ops") and st["place"]["local"] != 0:
+                    cands[st["place"]["local"]] = i
                 else:
                     cands.pop(st["place"]["local"], None)
         for L, i in cands.items():
@@ -616,7 +874,19 @@ def thread_local_variants(fd):
             if kv is None:
                 continue
             later = {st["place"]["local"] for st in b["stmts"][i + 1:] if st["s"] == "assign"}
-            head = _clone_chain(fd, b["term"]["target"], {L: kv}, heads, later)
+            # plain copies of the value made later in the same block (an argument moved into an inlined helper's
+            # parameter) hold it as well
+            kn = {L: kv}
+            for st in b["stmts"][i + 1:]:
+                if st["s"] == "assign" and not st["place"]["proj"]:
+                    rv = st["rv"]
+                    if rv["r"] == "use" and rv["op"]["k"] in ("move", "copy") and not rv["op"]["place"]["proj"] and rv["op"]["place"]["local"] in kn:
+                        kn[st["place"]["local"]] = kn[rv["op"]["place"]["local"]]
+                    else:
+                        kn.pop(st["place"]["local"], None)
+            if L not in kn:
+                kn[L] = kv
+            head = _clone_chain(fd, b["term"]["target"], kn, heads, later)
             if head is not None:
                 b["term"]["target"] = head
                 did = True
